@@ -407,7 +407,7 @@ macro_rules! common_methods {
 }
 
 macro_rules! raw_vut {
-    ($modname:ident, $ty:ident, $fmt:literal) => {
+    ($modname:ident, $ty:ident, $fmt:literal, $bound:path) => {
         pub mod $modname {
             use super::*;
             pub type Inner<T> = $ty<usize, T>;
@@ -415,7 +415,7 @@ macro_rules! raw_vut {
                 pub name: String,
                 pub v: Option<Inner<T>>,
             }
-            impl<T: Elem + vecdb::ZeroCopyVecValue> Vut<T> for Holder<T> {
+            impl<T: Elem + $bound> Vut<T> for Holder<T> {
                 fn format(&self) -> &'static str {
                     $fmt
                 }
@@ -634,7 +634,7 @@ pub trait MaybeRefRead<T> {
         None
     }
 }
-impl<T: Elem + vecdb::ZeroCopyVecValue> MaybeRefRead<T> for BytesVec<usize, T> {}
+impl<T: Elem> MaybeRefRead<T> for BytesVec<usize, T> {}
 impl<T: Elem + vecdb::ZeroCopyVecValue> MaybeRefRead<T> for ZeroCopyVec<usize, T> {
     fn ref_read(&self, i: usize) -> Option<Option<T>> {
         let reader = self.create_reader();
@@ -669,8 +669,8 @@ impl<T: Elem + vecdb::PcoVecValue> StoredFolds<T> for EagerVec<PcoVec<usize, T>>
     }
 }
 
-raw_vut!(bytes, BytesVec, "bytes");
-raw_vut!(zerocopy, ZeroCopyVec, "zerocopy");
+raw_vut!(bytes, BytesVec, "bytes", vecdb::BytesVecValue);
+raw_vut!(zerocopy, ZeroCopyVec, "zerocopy", vecdb::ZeroCopyVecValue);
 compressed_vut!(pco, PcoVec<usize, T>, "pco", vecdb::PcoVecValue);
 compressed_vut!(lz4, LZ4Vec<usize, T>, "lz4", vecdb::LZ4VecValue);
 compressed_vut!(zstd, ZstdVec<usize, T>, "zstd", vecdb::ZstdVecValue);
@@ -682,14 +682,47 @@ impl<T> AllFormats for T where T: Elem + vecdb::ZeroCopyVecValue + vecdb::PcoVec
 
 pub const FORMATS: &[&str] = &["bytes", "zerocopy", "pco", "lz4", "zstd", "eager-pco"];
 
+pub type Maker<T> = fn(&str, &str) -> Option<Box<dyn Vut<T>>>;
+
 pub fn make<T: AllFormats>(format: &str, name: &str) -> Box<dyn Vut<T>> {
+    make_all::<T>(format, name).expect("known format")
+}
+
+/// Every format (element types that all five formats accept).
+pub fn make_all<T: AllFormats>(format: &str, name: &str) -> Option<Box<dyn Vut<T>>> {
     let name = name.to_string();
-    match format {
+    Some(match format {
         "bytes" => Box::new(bytes::Holder::<T> { name, v: None }),
         "zerocopy" => Box::new(zerocopy::Holder::<T> { name, v: None }),
         "pco" => Box::new(pco::Holder::<T> { name, v: None }),
         "lz4" => Box::new(lz4::Holder::<T> { name, v: None }),
         "zstd" => Box::new(zstd::Holder::<T> { name, v: None }),
-        _ => Box::new(eager_pco::Holder::<T> { name, v: None }),
-    }
+        "eager-pco" => Box::new(eager_pco::Holder::<T> { name, v: None }),
+        _ => return None,
+    })
+}
+
+/// Element types Pco does not take (u128): bytes, zerocopy, lz4, zstd.
+pub fn make_nopco<T: Elem + vecdb::ZeroCopyVecValue + vecdb::LZ4VecValue + vecdb::ZstdVecValue>(format: &str, name: &str) -> Option<Box<dyn Vut<T>>> {
+    let name = name.to_string();
+    Some(match format {
+        "bytes" => Box::new(bytes::Holder::<T> { name, v: None }),
+        "zerocopy" => Box::new(zerocopy::Holder::<T> { name, v: None }),
+        "lz4" => Box::new(lz4::Holder::<T> { name, v: None }),
+        "zstd" => Box::new(zstd::Holder::<T> { name, v: None }),
+        _ => return None,
+    })
+}
+
+/// Derived wrappers (`#[derive(Pco)]`): bytes, pco, lz4, zstd (no zerocopy impls).
+pub fn make_nozc<T: Elem + vecdb::PcoVecValue + vecdb::LZ4VecValue + vecdb::ZstdVecValue>(format: &str, name: &str) -> Option<Box<dyn Vut<T>>> {
+    let name = name.to_string();
+    Some(match format {
+        "bytes" => Box::new(bytes::Holder::<T> { name, v: None }),
+        "pco" => Box::new(pco::Holder::<T> { name, v: None }),
+        "lz4" => Box::new(lz4::Holder::<T> { name, v: None }),
+        "zstd" => Box::new(zstd::Holder::<T> { name, v: None }),
+        "eager-pco" => Box::new(eager_pco::Holder::<T> { name, v: None }),
+        _ => return None,
+    })
 }
